@@ -74,7 +74,7 @@ def stepsJson (c : ClassOpts) (fields : List (String × FieldDecl)) (O : Oracles
     Inst → List Op → List Json
   | _, [] => []
   | x, op :: rest =>
-    let r := stepI Generated.nestedBound Generated.wrappers O c fields x op
+    let r := stepI Generated.nestedBound Generated.delitemHook Generated.wrappers O c fields x op
     Json.mkObj [("out", Mutate.outcomeJson r.2), ("state", instToJson r.1)] :: stepsJson c fields O r.1 rest
 
 def copyJson (R : Render) (defaults : EqCtx) (x y : Inst) : Json :=
